@@ -5,6 +5,7 @@ go 1.14
 require (
 	github.com/cnotch/ipchub v0.0.0
 	github.com/cnotch/queue v0.0.0-20201224060551-4191569ce8f6
+	github.com/cnotch/scheduler v0.0.0-20200522024700-1d2da93eefc5
 	github.com/cnotch/xlog v0.0.0-20201208005456-cfda439cd3a0
 	github.com/gorilla/websocket v1.4.2
 	github.com/pion/rtp v1.6.2
